@@ -347,6 +347,7 @@ class Dict(dict, base.Symbolic, pg_typing.CustomTyping):
       self, path_value_pairs: typing.Dict[utils.KeyPath, Any]
   ) -> List[base.FieldUpdate]:
     """Subclass specific rebind implementation."""
+    self._ensure_rebind_targets_writable(path_value_pairs)
     updates = []
     for k, v in path_value_pairs.items():
       update = self._set_item_of_current_tree(k, v)
